@@ -62,24 +62,25 @@ func filters() []Filter {
 type Position struct {
 	Name  string
 	Edges string
-	Sib   int // 1: an in-scope sibling asset is added before the tested node, 2: after it, 3: before it and on the tested URL's own host (in scope only through its path)
+	Sib   int // 1: an in-scope sibling asset is added before the tested node, 2: after it, 3: before it and on the tested URL's own host (in scope only through its path), 4: the tested node hangs off the second of two parents of its level
 }
 
 func positions(tier string) []Position {
-	ps := []Position{{"seed", "", 0}, {"redirect", "R", 0}, {"asset", "A", 0}, {"asset+same-host-sibling-before", "A", 3}}
+	ps := []Position{{"seed", "", 0}, {"redirect", "R", 0}, {"asset", "A", 0}, {"asset+same-host-sibling-before", "A", 3}, {"asset-of-the-second-parent", "AA", 4}}
 	if tier == "thorough" {
 		ps = append(ps, Position{"redirect>asset", "RA", 0}, Position{"asset>redirect", "AR", 0}, Position{"asset>asset", "AA", 0},
-			Position{"asset+sibling-before", "A", 1}, Position{"asset+sibling-after", "A", 2})
+			Position{"asset+sibling-before", "A", 1}, Position{"asset+sibling-after", "A", 2}, Position{"redirect-of-the-second-parent", "AR", 4})
 	}
 	return ps
 }
 
 // Fixed in-scope URLs (in scope under all 32 filter configurations) used for the nodes above the tested one.
 const (
-	rootURL = "http://in.example/x/a/root.html"
-	pageURL = "http://in.example/x/a/p.html"
-	sibURL  = "http://in.example/x/a/sib.png"
-	ctlURL  = "http://in.example/x/a/ctl.png" // control: must always come out with a request
+	rootURL  = "http://in.example/x/a/root.html"
+	pageURL  = "http://in.example/x/a/p.html"
+	sibURL   = "http://in.example/x/a/sib.png"
+	uncleURL = "http://in.example/x/a/first.css" // the first of two parents at depth 1
+	ctlURL   = "http://in.example/x/a/ctl.png"   // control: must always come out with a request
 )
 
 // parents of relative references; one that is not in scope under a configuration is skipped there
